@@ -1,4 +1,6 @@
 import IrefVerif.Lemmas.SplitModel
+import IrefVerif.Lemmas.Accessors
+import IrefVerif.Lemmas.ValidWF
 
 /-!
 # C20 — borrowed parsing and component access are zero-copy and allocation-free
@@ -6,7 +8,8 @@ import IrefVerif.Lemmas.SplitModel
 The logic part: every accessor of the model returns a *range* of the input
 (`Model/Parse.lean`), and the five ranges of the one-pass decomposition lie inside the input, in
 order, without overlap — scheme, authority, path, query, fragment — with exactly the delimiters
-between them.  Proved here for every input text (valid or not).
+between them.  Proved here for every input text (valid or not).  For valid references the
+offsets are given explicitly (`valid_offsets`), and the re-scanning accessors land on them too.
 That the real accessors return sub-slices at exactly these offsets (or the fixed constants ``,
 `/`, `/./`) and perform no heap allocation is observed by the `ptr` stream with a counting
 global allocator; allocation is runtime behaviour that the model does not exhibit.
@@ -138,6 +141,26 @@ theorem ranges_ordered (w : Text) : Ordered w.length (reference_parts w 0) := by
         refine ⟨?_, ?_⟩
         · intro y hy; cases hy
         · intro _; rfl
+
+/-- **for every valid reference the five ranges are exactly the consecutive Appendix-B offsets**,
+and the stand-alone accessors (which re-scan the text) return the same ranges -/
+theorem valid_offsets (G : Grammar) (ok : Lemmas.Grammar.Ok G) (w : Text) (h : RE.Matches G.reference w) :
+    reference_parts w 0 = Lemmas.rangesOf (split w) ∧
+    find_scheme w 0 = (Lemmas.rangesOf (split w)).scheme ∧
+    (find_authority w 0).toOption = (Lemmas.rangesOf (split w)).authority ∧
+    find_path w 0 = (Lemmas.rangesOf (split w)).path ∧
+    (find_query w 0).toOption = (Lemmas.rangesOf (split w)).query ∧
+    (find_fragment w 0).toOption = (Lemmas.rangesOf (split w)).fragment := by
+  obtain ⟨_, wf⟩ := Lemmas.split_valid G ok w h
+  have hw := Lemmas.recompose_split w
+  have h1 := Lemmas.reference_parts_recompose (split w) wf
+  have h2 := Lemmas.find_scheme_recompose (split w) wf
+  have h3 := Lemmas.find_authority_recompose (split w) wf
+  have h4 := Lemmas.find_path_recompose (split w) wf
+  have h5 := Lemmas.find_query_recompose (split w) wf
+  have h6 := Lemmas.find_fragment_recompose (split w) wf
+  rw [hw] at h1 h2 h3 h4 h5 h6
+  exact ⟨h1, h2, h3, h4, h5, h6⟩
 
 example : reference_parts [0x73, 0x3A, 0x2F, 0x2F, 0x68, 0x2F, 0x70, 0x3F, 0x71, 0x23, 0x66] 0 =
     { scheme := some (0, 1), authority := some (4, 5), path := (5, 7), query := some (8, 9),
